@@ -227,3 +227,111 @@ pub fn dist_batch(
         )
     });
 }
+
+/// What a membership consumer (the task distributor at a tick, the replication cycle at
+/// the start of a round) holds after draining its channel: the members it will address
+/// and, for the replication cycle, the peers its keyspace tracker remembers.
+pub fn members_event(
+    ev: &str,
+    service: usize,
+    members: &std::collections::BTreeMap<datacake_node::NodeId, std::net::SocketAddr>,
+    tracked: impl Iterator<Item = datacake_node::NodeId>,
+) {
+    datacake_crdt::verif::emit(|seq| {
+        let members: Vec<String> = members
+            .iter()
+            .map(|(id, addr)| format!("[{},\"{}\"]", id, addr))
+            .collect();
+        let tracked: Vec<String> = tracked.map(|id| id.to_string()).collect();
+        format!(
+            "{{\"ev\":\"{}\",\"seq\":{},\"service\":{},\"members\":[{}],\"tracked\":[{}]}}",
+            ev,
+            seq,
+            service,
+            members.join(","),
+            tracked.join(",")
+        )
+    });
+}
+
+/// The membership consumers of a store, started the way `EventuallyConsistentStore::create`
+/// starts them (task distributor, replication cycle, and the real `watch_membership_changes`
+/// task that feeds both from `node.membership_changes()`), over a handle the harness built.
+pub struct MembershipConsumers {
+    task_service: crate::replication::TaskDistributor,
+    repair_service: crate::replication::ReplicationHandle,
+}
+
+impl MembershipConsumers {
+    pub async fn start<S: crate::Storage>(
+        group: KeyspaceGroup<S>,
+        node: datacake_node::DatacakeHandle,
+        repair_interval: std::time::Duration,
+    ) -> Self {
+        let task_ctx = crate::replication::TaskServiceContext {
+            clock: node.clock().clone(),
+            network: node.network().clone(),
+            local_node_id: node.me().node_id,
+            public_node_addr: node.me().public_addr,
+        };
+        let replication_ctx = crate::replication::ReplicationCycleContext {
+            repair_interval,
+            group,
+            network: node.network().clone(),
+        };
+        let task_service =
+            crate::replication::start_task_distributor_service::<S>(task_ctx).await;
+        let repair_service =
+            crate::replication::start_replication_cycle(replication_ctx).await;
+        tokio::spawn(crate::watch_membership_changes(
+            task_service.clone(),
+            repair_service.clone(),
+            node,
+        ));
+        Self {
+            task_service,
+            repair_service,
+        }
+    }
+
+    /// Hands a single put to the task distributor, as `ReplicatedStoreHandle::put` does.
+    pub fn put(&self, keyspace: &str, doc: crate::Document) {
+        self.task_service.mutation(crate::replication::Mutation::Put {
+            keyspace: std::borrow::Cow::Owned(keyspace.to_string()),
+            doc,
+        });
+    }
+
+    /// The ids the events of the task distributor / the replication cycle carry.
+    pub fn service_ids(&self) -> (usize, usize) {
+        (self.task_service.verif_id(), self.repair_service.verif_id())
+    }
+
+    /// Stops both services at their next tick.
+    pub fn kill(&self) {
+        self.task_service.kill();
+        self.repair_service.kill();
+    }
+}
+
+/// The store's membership watcher handed `change` to the task distributor `dist` and the
+/// replication cycle `poll` (emitted after both have it in their channels).
+pub fn membership_forwarded(dist: usize, poll: usize, change: &datacake_node::MembershipChange) {
+    datacake_crdt::verif::emit(|seq| {
+        let list = |v: &[datacake_node::ClusterMember]| {
+            let parts: Vec<String> = v
+                .iter()
+                .map(|m| format!("[{},\"{}\"]", m.node_id, m.public_addr))
+                .collect();
+            parts.join(",")
+        };
+        format!(
+            "{{\"ev\":\"mc_fwd\",\"seq\":{},\"dist\":{},\"poll\":{},\"joined\":[{}],\"left\":[{}]}}",
+            seq,
+            dist,
+            poll,
+            list(&change.joined),
+            list(&change.left)
+        )
+    });
+}
